@@ -23,4 +23,26 @@ CLAIMED = {
  "C19": {"technique": T + ": mutation-site coverage path rule (A4-dirty)",
          "text": L("every mutation site of database state marks the database dirty on every path inside its critical section"), "note": NOTE},
 }
+
+CLAIMED.update({
+ "C01": {"technique": T + ": dominance / must-pass-through rules on the connection state machine, value-provenance rule on the request buffer, format/operand agreement in the serializer, taint of request bytes into line replies",
+         "text": L("one write then re-arm, consume exactly the parsed length, no parser state across reads, length prefixes are len(payload), line replies are CR/LF free"), "note": NOTE},
+ "C02": {"technique": T + ": taint of the client's command spelling, idiom operand check, phase-order reachability, handler/grammar agreement (A7), effect classification (A5-readonly)",
+         "text": L("command identity from the normalised token, overflow idiom operands, MSETNX check-before-write, argument agreement for the string family"), "note": NOTE},
+ "C03": {"technique": T + ": alias-after-detach rule, path coverage rules (A4-empty, A4-nonempty-create), constructor field-set agreement, edge-sensitive nilness of typed accessors, A7",
+         "text": L("no push onto a possibly detached list, no empty list left behind, complete list constructors, WRONGTYPE discipline, argument agreement for the list family"), "note": NOTE},
+ "C04": {"technique": T + ": sibling-parameter use, idiom operand check, path coverage rules (A4-empty, A4-nonempty-create), nilness, A7",
+         "text": L("HSETNX's option reaches the store, HINCRBY overflow idiom, no empty hash left behind, WRONGTYPE discipline, argument agreement for the hash family"), "note": NOTE},
+ "C05": {"technique": T + ": effect classification over the call graph (A5-readonly), path coverage rules, nilness, A7",
+         "text": L("read-only set commands (the algebra) reach no mutation site, no empty set left behind, WRONGTYPE discipline, argument agreement for the set family"), "note": NOTE},
+ "C14": {"technique": T + ": single-writer / insert-guard rule on the database table, dominance rule on SELECT, binding rule in prepare, confinement taint (A1 modes)",
+         "text": L("database objects are never dropped or replaced, SELECT only under validity, commands bound to their connection's database, session state confined"), "note": NOTE},
+ "C15": {"technique": T + ": producer/consumer type-set agreement over MakeInterface sites and type switches, closure of the down-converter, dominance rule in the dispatcher, guard rule on HELLO",
+         "text": L("type switches over reply/request values are exhaustive, the down-converter yields only RESP2 kinds and is applied on the RESP2 branch, protocol version restricted to 2/3"), "note": NOTE},
+})
+CLAIMED["C06"]["technique"] = T + ": path coverage rules (A4-empty, A4-nonempty-create), flag/payload type agreement, constructor agreement, edge-sensitive nilness, A7"
+CLAIMED["C10"]["technique"] = T + ": mutation-site coverage path rule (A4-version), expiry filter (A6), must-pass reset rule"
+CLAIMED["C13"]["technique"] = T + ": abstract interpretation of handlers against the command grammar (A7), nilness of typed accessors, payload agreement, may-held lock leak and non-re-entrant acquisition reachability"
+CLAIMED["C19"]["technique"] = T + ": mutation-site coverage path rule (A4-dirty), saver-loop provenance, writer/loader record agreement, create/close/rename ordering"
+
 PENDING = {}
